@@ -358,6 +358,7 @@ class Gen:
         self.valid = True
         self.gdef = {}         # file scope: name -> set of forms seen ('ext', 'tent', 'init')
         self.genum = set()     # file-scope enumerators
+        self.externed = set()  # names declared `extern` somewhere (entities with linkage: no file-scope enumerator of that name)
         self.scopes = []       # block scopes: dict name -> 'plain' | 'ext' | 'enum' (innermost last)
         self.enums = enums
         self.budget = 0
@@ -410,6 +411,8 @@ class Gen:
             if cur is None:
                 ext = rng.random() < self.dupbias and x not in self.genum
                 sc[x] = "ext" if ext else "plain"
+                if ext:
+                    self.externed.add(x)
                 if x in blocked:
                     self.valid = False
                 return x, ext
@@ -440,8 +443,11 @@ class Gen:
     def xstmt(self):
         us = self.uses(1, 4)
         shape = self.rng.choice([0, 0, 1, 1, 2, 3, 4])
-        if us and shape in (0, 3, 4) and not self.is_var(us[0]) and not self.wild:
-            shape = 1          # an enumerator is not an lvalue
+        if us and shape in (0, 3, 4) and not self.is_var(us[0]):
+            if self.wild:
+                self.valid = False
+            else:
+                shape = 1          # an enumerator is not an lvalue
         return ["X", us, dict(shape=shape, ops=self.rng.randrange(30))]
 
     def pick_enum(self, blocked=()):
@@ -586,7 +592,7 @@ class Gen:
         for _ in range(ntop):
             r = rng.random()
             if rng.random() < self.enums * 1.5:
-                cand = [y for y in range(self.nn) if y not in self.genum and y not in self.gdef]
+                cand = [y for y in range(self.nn) if y not in self.genum and y not in self.gdef and y not in self.externed]
                 if cand:
                     x = rng.choice(cand)
                     us = self.uses(0, 2) if rng.random() < 0.4 else []
@@ -781,6 +787,10 @@ def compare(ctx, res, name, cases, impl, model, register=True):
     return viol, mism
 
 
+def inline_p(text):
+    return re.sub(r"\n(p\d+v\d+)\n", r" \1 ", text)
+
+
 def inline(text):
     """program text with the tracked names back on their lines (for messages)"""
     return re.sub(r"\n(v\d+)\n", r" \1 ", text)
@@ -791,7 +801,7 @@ def report(res, viol, limit=8):
         c = v["case"]
         what = ("name resolution differs from lexical scoping on the real tokenizer (%s): occurrence(s) %s%s%s; impl=%s spec=%s\n%s" %
                 ("c++" if c["cpp"] else "c", v["bad"][:5], " duplicate declaration ids" if v["dup_ids"] else "",
-                 " [class dup-decl-in-scope: pre-fix leaveScope order]" if v["key"] else "", v["impl"], v["spec"], inline(v["text"])))
+                 (" [class %s]" % v["key"]) if v["key"] else "", v["impl"], v["spec"], inline(v["text"])))
         res.violation(what, dict(cpp=c["cpp"], prog=c["prog"], impl=v["impl"], spec=v["spec"], key=v["key"], text=v["text"],
                                  replay_cmd="./check.py C08 --replay <this file>"), concrete=True, key=v["key"])
 
@@ -932,16 +942,18 @@ def clang_oracle(ctx, res, cases, model, limit, batch=40):
         for b in range(0, len(sel), batch):
             jobs.append((cpp, sel[b:b + batch]))
 
-    def work(job):
-        cpp, sel = job
-        ids, err = clang_batch(ctx, [c for _, c in sel], cpp, "b%d_%d" % (sel[0][0], int(cpp)))
+    def solve(cpp, sel, tag):
+        ids, err = clang_batch(ctx, [c for _, c in sel], cpp, tag)
         if ids is not None:
             return [(k, i, "") for (k, _), i in zip(sel, ids)]
-        out = []
-        for k, c in sel:         # one program of the batch is not valid: find it
-            i1, e1 = clang_batch(ctx, [c], cpp, "s%d" % k)
-            out.append((k, i1[0] if i1 is not None else None, e1))
-        return out
+        if len(sel) == 1:
+            return [(sel[0][0], None, err)]
+        h = len(sel) // 2          # some program of the batch is not valid: bisect
+        return solve(cpp, sel[:h], tag + "a") + solve(cpp, sel[h:], tag + "b")
+
+    def work(job):
+        cpp, sel = job
+        return solve(cpp, sel, "b%d_%d" % (sel[0][0], int(cpp)))
 
     with concurrent.futures.ThreadPoolExecutor(max_workers=2) as ex:
         results = [x for part in ex.map(work, jobs) for x in part]
@@ -949,13 +961,15 @@ def clang_oracle(ctx, res, cases, model, limit, batch=40):
     for k, ids, err in results:
         if ids is None:
             rejected += 1
-            first_rej = first_rej or (err + "\n" + print_prog(cases[k]["prog"], cases[k]["cpp"])[0])
+            first_rej = first_rej or (err + "\n" + print_prog(cases[k]["prog"], cases[k]["cpp"], prefix="p0")[0])
             continue
         res.count("clang-compared")
         if ids != model[k]["S"]:
             bad.append((k, ids))
     res.extra["clang_programs"] = len(todo)
     res.extra["clang_rejected"] = rejected
+    if first_rej:
+        res.extra["clang_first_rejected"] = inline_p(first_rej)[:1500]
     detail = ""
     if bad:
         k, ids = bad[0]
